@@ -405,6 +405,7 @@ fn history(cx: &mut Ctx, family: &str, variant: u64, aux: u64, ops: &[(u64, u64,
     let mut shadow: BTreeMap<u64, u64> = BTreeMap::new();
     let mut obs: Vec<String> = vec![];      // observations as Coq terms (model comparison)
     let mut offered: Vec<bool> = vec![];    // operations the type does not offer are left out of the model comparison
+    let (mut ctr_total, mut ctr_unique) = (0u64, 0u64); // insert calls / inserts of an absent key since the last clear (HashStrMap::statistics)
     let mut cops: Vec<(u64, u64, u64)> = vec![]; // the operations on the canonical key / value numbers (typed cells)
     let mut khash: Vec<(u64, u64)> = vec![];     // canonical key -> what the cell's BuildHasher yields for it (table-driven model)
     let mut failure: Option<String> = None;
@@ -451,7 +452,8 @@ fn history(cx: &mut Ctx, family: &str, variant: u64, aux: u64, ops: &[(u64, u64,
                     (term, if got != want { Some(format!("iteration yields {:?}, the live entries are {:?}", &got[..got.len().min(12)], &want[..want.len().min(12)])) } else { None }) }),
                 8 => m.maintain(v).map(|_| match m.counter(v) {
                     // a counter the cell's model knows about (HashStrMap::statistics): an observation of the model; `entries` is also the shadow's
-                    Some(x) => (format!("OLen {}", x), if v % 3 == 0 && x != shadow.len() as u64 { Some(format!("statistics().entries = {}, a map has {} live keys", x, shadow.len())) } else { None }),
+                    Some(x) => { let want = [shadow.len() as u64, ctr_total, ctr_unique][(v % 3) as usize];
+                                 (format!("OLen {}", x), if x != want { Some(format!("statistics().{} = {}, the history gives {}", ["entries", "total_strings", "unique_strings"][(v % 3) as usize], x, want)) } else { None }) }
                     None => ("OMaint".to_string(), None) }),
                 // ---- breadth: secondary entry points, judged by the same shadow; none of them is known to the Coq models
                 9 => {
@@ -504,10 +506,10 @@ fn history(cx: &mut Ctx, family: &str, variant: u64, aux: u64, ops: &[(u64, u64,
         }
         // the shadow map
         match c {
-            0 => { shadow.insert(k, v); }
+            0 => { ctr_total += 1; if !shadow.contains_key(&k) { ctr_unique += 1; } shadow.insert(k, v); }
             1 => { shadow.remove(&k); }
             3 => { if let Some(r) = shadow.get_mut(&k) { *r = v; } }
-            7 => { shadow.clear(); }
+            7 => { shadow.clear(); ctr_total = 0; ctr_unique = 0; }
             10 => { for (a, b) in &items { shadow.insert(*a, *b); } }
             12 => { shadow.entry(k).or_insert(v); }
             13 => {
